@@ -102,6 +102,7 @@ class RefCtx:
     def __init__(self, asg: dict):
         self.asg = asg
         self.terms: list[tuple] = []  # (path, logp, kind, params, value)
+        self.branches: dict = {}  # address prefix of a switch-like combinator -> executed branch
 
     def choose(self, path, kind, params):
         if path not in self.asg:
@@ -694,6 +695,7 @@ class Switch(Node):
     def ref(self, R, args, path):
         idx = int(args[0])
         k = min(max(idx, 0), len(self.branches) - 1)
+        R.branches[path] = k
         return self.branches[k].ref(R, tuple(args[1 + k]), path)
 
     def arg_alphabet(self):
@@ -799,6 +801,7 @@ class OrElse(Node):
 
     def ref(self, R, args, path):
         flag, aa, ba = args
+        R.branches[path] = 0 if bool(flag) else 1
         if bool(flag):
             return self.a.ref(R, tuple(aa), path)
         return self.b.ref(R, tuple(ba), path)
@@ -835,6 +838,7 @@ class Mix(Node):
     def ref(self, R, args, path):
         logits = np.asarray(args[0], dtype=np.float64)
         k = int(R.choose(path + ("mixture_component",), "cat", (logits,)))
+        R.branches[path + ("component_sample",)] = k
         return self.branches[k].ref(R, tuple(args[1 + k]), path + ("component_sample",))
 
     def arg_alphabet(self):
@@ -1171,6 +1175,11 @@ def catalog(tier: str, continuous: bool = True) -> list[Node]:
         seen.add(p.name)
         out.append(p)
     return out
+
+
+def component_of(node):
+    ks = sorted(node.kinds() - {"static", "dist"})
+    return "+".join(ks) if ks else "static"
 
 
 def rotate(seq, seed):
